@@ -1463,3 +1463,28 @@ def purge_deletes_models_in_signature_order(case, outcome, atoms):
         return atoms
     return [a for a in atoms if not (a[0] == 'run_failed' and
                                      'Unable to find a model signature' in str(a[4]))]
+
+
+# ---------------------------------------------------------------------------
+# C09
+# ---------------------------------------------------------------------------
+
+@explainer
+def create_models_merged_ahead_of_evolutions(case, outcome, atoms):
+    """EvolveAppTask._build_batches consolidates consecutive create-model and
+    evolution nodes into one batch (a create-model batch is merged into the
+    preceding evolutions batch although its comment says it cannot be), and
+    execute_tasks runs a batch as: every model creation first, then each app's
+    evolutions together, apps in order of first appearance.  The graph's order
+    inside a batch is lost: an evolution ordered before a model creation, or
+    before another app's evolution that shares a batch with an earlier evolution
+    of its own app, is executed after it."""
+    # only when the graph's own order is right and the execution is exactly the
+    # batched form of it: then the consolidation alone accounts for the breach
+    if any(a[0] in ('graph_order_breaks_requirement', 'execution_differs_from_batched_graph_order',
+                    'graph_unit_missing', 'graph_unit_twice', 'no_graph_order_observed')
+           for a in atoms):
+        return atoms
+    return [a for a in atoms
+            if not (a[0] == 'requirement_broken' and a[1] == 'declared' and
+                    a[2] in ('evo>create', 'evo>evo') and a[3] == 'same_batch')]
